@@ -57,7 +57,11 @@ def _case(draw):
     heights = [draw(st.sampled_from([1, 1, 1, 2, 3])) if draw(st.integers(0, 9)) < 4 else 1 for _ in range(n)]
     levels = draw(st.integers(1, 3)) if "page_by" in strat else 0
     groups = draw(_keys(n, levels, "@G")) if levels else None
-    subline = draw(_keys(n, 1, "@B"))[0] if strat.startswith("subline") else None
+    subline = None
+    if strat.startswith("subline"):
+        k = draw(st.sampled_from([1, 1, 2, 3]))
+        cols_ = draw(_keys(n, k, "@B"))
+        subline = cols_[0] if k == 1 else cols_
     header = draw(st.sampled_from(["explicit", "default", "multi", "none"]))
     fn = draw(st.sampled_from([None, "table", "para"]))
     src = draw(st.sampled_from([None, "table", "para"]))
